@@ -66,13 +66,26 @@ for job in spec["jobs"]:
     prefix = job[3] if len(job) > 3 else spec["dfile_prefix"]
     try:
         kw = {}
-        if mode not in ("ts", "dup", "exc"):
+        if mode not in ("ts", "dup", "exc", "uset"):
             from py_compile import PycInvalidationMode as M
             kw["invalidation_mode"] = M.CHECKED_HASH if mode == "ch" else M.UNCHECKED_HASH
         elif sys.version_info >= (3, 7):
             from py_compile import PycInvalidationMode as M
             kw["invalidation_mode"] = M.TIMESTAMP
-        if mode == "exc":
+        if mode == "uset":
+            # Python 2 only: a frozenset / dict of unicode strings among the constants (the 2.x compiler never puts
+            # one there, a bytecode writer can): their order in a listing must not depend on memory addresses
+            import marshal, struct, types, imp
+            with open(src, "rb") as f:
+                co = compile(f.read(), prefix + os.path.basename(src), "exec", 0, 1)
+            extra = (frozenset([u"alpha", u"beta", u"gamma", u"delta", u"epsilon", u"zeta"]),
+                     frozenset([u"caf\xe9", u"na\xefve", u"plain"]))
+            co2 = types.CodeType(co.co_argcount, co.co_nlocals, co.co_stacksize, co.co_flags, co.co_code,
+                                 co.co_consts + extra, co.co_names, co.co_varnames, co.co_filename, co.co_name,
+                                 co.co_firstlineno, co.co_lnotab, co.co_freevars, co.co_cellvars)
+            with open(dst, "wb") as f:
+                f.write(imp.get_magic() + struct.pack("<I", 1700000000) + marshal.dumps(co2))
+        elif mode == "exc":
             # a legal marshal stream whose 3.11+ exception tables end in an incomplete entry (last byte dropped):
             # loadable everywhere, and every host / path must make the same of it
             import marshal, struct, types
@@ -201,6 +214,9 @@ def produce_corpus(seed, n_xdis, n_stdlib, only_tags=None, outdir=None, workers=
                                                           "s07c_async35.py", "04_raise.py"):
                 stem = "%03d_%s" % (k, os.path.basename(src)[:-3])
                 jobs.append([src, os.path.join(tdir, "%s.exc.pyc" % stem), "exc"])
+            if vt < (3, 0) and k % 6 == 0:
+                stem = "%03d_%s" % (k, os.path.basename(src)[:-3])
+                jobs.append([src, os.path.join(tdir, "%s.uset.pyc" % stem), "uset"])
             if k % 5 == 2 and vt >= (3, 8):
                 stem = "%03d_%s" % (k, os.path.basename(src)[:-3])
                 jobs.append([src, os.path.join(tdir, "%s.dup.pyc" % stem), "dup"])
